@@ -1,5 +1,6 @@
 import DepsDev.Proofs.C10Tie
 import DepsDev.Proofs.C10Gem
+import DepsDev.Proofs.C10PepTie
 import DepsDev.Props.SemverTies
 
 /-!
@@ -30,8 +31,12 @@ What is here:
   and NuGet on every non-wildcard version `Parse` accepts (`c10_generic`);
 * RubyGems, release-only versions (the property's own restriction): `gem_release` — the
   property for everything `Parse` accepts without the prerelease flag (`GemRelease`);
-* Maven, PyPI: the statements only (`CanonRoundTripFull`), covered by the differential
-  correspondence and the round-trip oracle, not by a theorem.
+* PyPI (PEP 440): `pypi` — the property for everything `Parse` accepts without wildcard and
+  without an '∞' release number (`NoInfinity`); and a fourth refutation found while proving,
+  `pypi_leading_infinity_not_roundtrip` (`01!∞` is accepted, its canonical form `1!∞.0.0` is
+  not; finding F-C10-pypi-inf, confirmed on the Go code);
+* Maven: the statement only (`CanonRoundTripFull`) and its refutation, covered by the
+  differential correspondence and the round-trip oracle, not by a theorem.
 -/
 namespace DepsDev.Props.C10
 
@@ -61,11 +66,14 @@ def GemRelease (v : Version) : Bool := !v.isPrerelease
 /-- Finding F-C10-mvn-leadsep: the Maven string does not begin with a separator. -/
 def NoLeadingSeparator (b : Bytes) : Bool := !(b.head? == some 46 || b.head? == some 45)
 
-/-- The property as stated, with the three recorded exclusions as hypotheses. -/
+/-- Finding F-C10-pypi-inf: PyPI's `Parse` accepts '∞' as a release number; the theorems exclude it. -/
+def NoInfinity (v : Version) : Bool := !v.num.any (· == infinity)
+
+/-- The property as stated, with the recorded exclusions as hypotheses. -/
 def C10Stated : Prop :=
   ∀ (s : System) (b : Bytes) (v : Version) (sb : Bool), parse s b = .ok v →
     NotWildcard v = true → (s = .rubygems → GemRelease v = true) → (s = .maven → NoLeadingSeparator b = true) →
-    RoundTrips s v sb
+    (s = .pypi → NoInfinity v = true) → RoundTrips s v sb
 
 /-- The property read literally (every version that parses, every system). -/
 def C10Full : Prop := ∀ s, CanonRoundTripFull s ∧ CanonInjectiveFull s
@@ -288,6 +296,61 @@ theorem gem_release :
 string is `1.2.0`. -/
 example : ∃ v, parse .rubygems [48, 49, 46, 50] = .ok v ∧ GemRelease v = true := by
   refine ⟨{ sys := .rubygems, userNumCount := 2, num := [1, 2, 0], ext := .gem [] }, ?_, ?_⟩ <;> decide +kernel
+
+/-! ## PyPI (PEP 440) -/
+
+/-- **C10 for PyPI** (all four clauses): every version `Parse` accepts that is not a wildcard
+pattern and has no '∞' release number round-trips through its canonical string
+`[E!]N.N.N[{a|b|rc}N][.postN][.devN][+local]`; two such versions with the same canonical string
+compare equal. -/
+theorem pypi :
+    (∀ (b : Bytes) (v : Version) (sb : Bool), parse .pypi b = .ok v → NotWildcard v = true → NoInfinity v = true →
+      RoundTrips .pypi v sb) ∧
+    (∀ (b1 b2 : Bytes) (v w : Version), parse .pypi b1 = .ok v → parse .pypi b2 = .ok w →
+      NotWildcard v = true → NotWildcard w = true → NoInfinity v = true → NoInfinity w = true →
+      canon v true = canon w true → vcompare v w = .ok 0) := by
+  constructor
+  · intro b v sb hp hw hi
+    have hw' : v.isWildcard = false := by simpa [NotWildcard] using hw
+    obtain ⟨v', h1, h2, h3, _⟩ := pep_roundtrip v sb (pep_parse_shape b v hp hw' hi)
+    exact ⟨v', h1, h2, h3⟩
+  · intro b1 b2 v w hp1 hp2 hw1 hw2 hi1 hi2 h
+    have hv' : v.isWildcard = false := by simpa [NotWildcard] using hw1
+    have hw' : w.isWildcard = false := by simpa [NotWildcard] using hw2
+    exact pep_injective v w (pep_parse_shape b1 v hp1 hv' hi1) (pep_parse_shape b2 w hp2 hw' hi2) h
+
+/-- What PyPI `01!∞` parses to. -/
+def pepInfV : Version :=
+  { sys := .pypi, userNumCount := 1, num := [infinity, 0, 0], ext := .pep (some { epoch := 1 }) }
+
+/-- PyPI `01!∞` is accepted, but its canonical form `1!∞.0.0` is not (`possibleVersionString`). -/
+theorem pypi_leading_infinity_not_roundtrip : ¬ CanonRoundTripFull .pypi := by
+  intro h
+  have hp : parse .pypi [48, 49, 33, 0xE2, 0x88, 0x9E] = .ok pepInfV := by decide +kernel
+  obtain ⟨v', h1, _, _⟩ := h _ _ true hp
+  have hc : canon pepInfV true = [49, 33, 0xE2, 0x88, 0x9E, 46, 48, 46, 48] := by
+    have e0 : valueBytes 0 = [48] := by rw [valueBytes_num 0 (by decide) (by decide)]; exact natToBytes_lt10 0 (by decide)
+    have ei : valueBytes infinity = infB := valueBytes_inf
+    have e1 : intToBytes 1 = [49] := by
+      have : intToBytes ((1 : Nat) : Int) = natToBytes 1 := intToBytes_nat 1
+      rw [show ((1 : Nat) : Int) = 1 from rfl] at this
+      rw [this]; exact natToBytes_lt10 1 (by decide)
+    rw [canon_pep pepInfV true (some { epoch := 1 }) rfl, printNums_eq pepInfV (by decide)]
+    simp [pepText, pepInfV, pad3, renderNums, dotNums, e0, ei, e1, infB]
+  rw [hc] at h1
+  have hp' : parse .pypi [49, 33, 0xE2, 0x88, 0x9E, 46, 48, 46, 48] = .err := by decide +kernel
+  rw [hp'] at h1
+  cases h1
+
+theorem pypi_witness_excluded : NoInfinity pepInfV = false := by decide
+
+/-- Non-vacuity: PyPI `v1.0RC2.post3+Ab-1` is accepted, is not a wildcard and has no '∞'
+(its canonical string is `1.0.0rc2.post3+Ab.1`). -/
+example : ∃ v, parse .pypi [118, 49, 46, 48, 82, 67, 50, 46, 112, 111, 115, 116, 51, 43, 65, 98, 45, 49] = .ok v ∧
+    NotWildcard v = true ∧ NoInfinity v = true := by
+  refine ⟨{ sys := .pypi, userNumCount := 2, isPrerelease := true, num := [1, 0, 0], pre := [[114, 99], [50]],
+            ext := .pep (some { pre := [114, 99], preNum := 2, postPresent := true, postNum := 3, loc := [65, 98, 46, 49] }) },
+    ?_, ?_, ?_⟩ <;> decide +kernel
 
 /-- The Cargo version `1.2-Beta-1+x.y` as `Parse` leaves it (two numbers). -/
 def cargoV : Version :=
